@@ -229,6 +229,8 @@ func runC04(c *eng.Ctx) {
 	})
 
 	// ---- 7. calculators --------------------------------------------------------------------------------------------------------------------
+	c.Rule("PROV", "tsdb/tblstore/metricsdata.seriesMerger.merge{decode with the block's own range}", func() { seriesMergerOwnRange(c) })
+
 	c.Rule("EXHAUSTIVE", "pkg/timeutil.Interval{Type, Calculator}", func() {
 		pk := p.Package("pkg/timeutil")
 		if pk == nil {
